@@ -323,6 +323,16 @@ def build():
         notes="Known findings: /verif/known_findings.json. Fix commits in /repo start with 'fix:'. See DESIGN.md.",
         not_applicable=na,
     )
+    # never write an invalid manifest
+    import re
+    assert all(re.fullmatch(r"C\d\d", c["property_id"]) for c in m["checks"]), "bad property id in CHECKS"
+    assert sorted(c["property_id"] for c in m["checks"]) + sorted(x["property_id"] for x in na) == sorted(ALL) or \
+        sorted([c["property_id"] for c in m["checks"]] + [x["property_id"] for x in na]) == ALL
+    try:
+        import jsonschema
+        jsonschema.validate(m, json.load(open("/root/.vp/MANIFEST.schema.json")))
+    except ImportError:
+        pass
     (ROOT / "MANIFEST.json").write_text(json.dumps(m, indent=1) + "\n")
     return m
 
